@@ -39,6 +39,32 @@ SCORE_RTOL = 1e-6          # warm-started vs cold fit, both converged with tol 1
 FAIL_MARGIN = 10.0
 
 
+# known findings on the unchanged tree: tag head -> (id used as selector {'known': id}, minimal reproduction, expectation)
+KNOWN = {
+    'fit_intercept grid is ignored': (
+        'C10-fit-intercept-grid-ignored',
+        "g = LinearGAM(l(0)); r = g.gridsearch(X, y, return_scores=True, keep_best=False, progress=False, fit_intercept=[True, False]); "
+        "the model with fit_intercept=False has 2 coefficients and the score of the fit_intercept=True model; "
+        "LinearGAM(l(0), fit_intercept=False).fit(X, y) has 1 coefficient and another score",
+        "each candidate's score equals the objective of an independently fitted model with those hyper-parameters"),
+    'joint n_splines/spline_order grid': (
+        'C10-joint-grid-sequential-validation',
+        "LinearGAM(s(0, n_splines=6, spline_order=3)).gridsearch(X, y, return_scores=True, progress=False, n_splines=[3, 6], "
+        "spline_order=[1, 3]) fits (6,1), (6,3) only; with the keywords in the other order (3,1) is fitted too; "
+        "LinearGAM(s(0, n_splines=3, spline_order=1)).fit(X, y) works",
+        'gridsearch fits exactly the Cartesian product of the per-parameter grids'),
+    'warm start': (
+        'C10-warm-start-divergence-skips-candidate',
+        "LogisticGAM(s(0, n_splines=7) + s(1, n_splines=7)).fit(X, y).gridsearch(X, y, spline_order=[5, 0, 9, 1]) skips spline_order=0 "
+        "('PIRLS optimization has diverged' from the previous model's coef_), gridsearch(spline_order=[1, 0]) fits it",
+        'gridsearch fits exactly the Cartesian product of the per-parameter grids (warm starts do not change the outcome)'),
+    'plural setter': (
+        'C10-plural-setter-attributeerror',
+        "LinearGAM(s(0) + l(1)).gridsearch(X, y, n_splines=[5, 7]) raises AttributeError: 'LinearTerm' object has no attribute 'n_splines'",
+        'gridsearch fits the requested candidates (or skips / rejects them with ValueError)'),
+}
+
+
 # ------------------------------------------------------------------------------------------------
 # exact values
 # ------------------------------------------------------------------------------------------------
@@ -489,14 +515,14 @@ def run_real_case(spec):
                 if robj in ('AIC', 'AICc'):
                     ref = max(ref, 2.0 * abs(float(c.statistics_['loglikelihood'])) + 2.0 * float(c.statistics_['edof']))
                 entry = dict(key=key_json(cand), score=float(c.statistics_[robj]), conv=converged(c), ref=max(ref, 1e-3),
-                             pred=c.predict_mu(X) if spec['keep_best'] else None)
+                             ncoef=len(c.coef_), pred=c.predict_mu(X) if spec['keep_best'] else None)
                 if 'fit_intercept' in over and not over['fit_intercept'][0]:
                     # reference for the suspected defect "a fit_intercept grid is ignored": the same candidate with an intercept
                     over2 = dict(over, fit_intercept=[1])
                     c2 = build_model(pygam, spec, over2)
                     with contextlib.redirect_stdout(io.StringIO()):
                         c2.fit(X, y, **fkw)
-                    entry['alt'] = dict(score=float(c2.statistics_[robj]), conv=converged(c2),
+                    entry['alt'] = dict(score=float(c2.statistics_[robj]), conv=converged(c2), ncoef=len(c2.coef_),
                                         pred=c2.predict_mu(X) if spec['keep_best'] else None)
                 cold.append(entry)
             except ValueError as ex:
@@ -601,6 +627,11 @@ def run_real_case(spec):
                 if json.dumps(md['key']) not in pool:
                     continue
                 c = pool[json.dumps(md['key'])][0]
+                if 'alt' in c and len(m.coef_) != c['ncoef'] and len(m.coef_) == c['alt']['ncoef']:
+                    # the fit_intercept=False candidate carries an intercept coefficient: known finding (a)
+                    if not any(t.startswith('fit_intercept') for t in res['suspected']):
+                        res['suspected'].append('fit_intercept grid is ignored: the candidate with fit_intercept=False is fitted with an intercept '
+                                                '(%d coefficients, an independent fit has %d)' % (len(m.coef_), c['ncoef']))
                 if not (c['conv'] and converged(m)):
                     continue
                 nconv += 1
@@ -1035,6 +1066,17 @@ def gen_real_specs(ctx, lits):
                           terms=[dict(kind='s', feature=0, n_splines=6, spline_order=3, lam=0.6), dict(kind='s', feature=1, n_splines=5, spline_order=3, lam=0.6)][:1 + k % 2],
                           n=80, d=3, data_seed=100 + k, fitted=k >= 2, keep_best=True, return_scores=True, objective=None if k % 2 else 'auto',
                           grids=[], weights=False, exposure=False, tol=1e-8, max_iter=200))
+    # known findings (a) and (b): seeded cases that reproduce them in every run
+    for k in range(2):
+        specs.append(dict(cls='LinearGAM', scale=None, terms=[dict(kind='l', feature=0, lam=0.6)], n=80, d=3, data_seed=31 + k,
+                          fitted=bool(k), keep_best=False, return_scores=True, objective='auto',
+                          grids=[dict(param='fit_intercept', desc=dict(kind='1d', values=[True, False], container='list'))],
+                          weights=False, exposure=False, tol=1e-8, max_iter=200))
+        specs.append(dict(cls='LinearGAM', scale=None, terms=[dict(kind='s', feature=0, n_splines=6, spline_order=3, lam=0.6)], n=80, d=3,
+                          data_seed=41 + k, fitted=bool(k), keep_best=True, return_scores=True, objective='auto',
+                          grids=[dict(param='n_splines', desc=dict(kind='1d', values=[3, 6], container='list')),
+                                 dict(param='spline_order', desc=dict(kind='1d', values=[1, 3], container='list'))],
+                          weights=False, exposure=False, tol=1e-8, max_iter=200))
     # suspected defect (C14 plural setter): n_splines / spline_order grids on models holding l() / f() terms
     for k in range(2):
         specs.append(dict(cls='LinearGAM', scale=None, terms=[dict(kind='s', feature=0, n_splines=6, spline_order=3, lam=0.6),
@@ -1156,13 +1198,38 @@ def judge_real(ctx, stream, spec, res, prep, sout):
     nontrivial = not (not spec['grids'] and spec['objective'] in ('auto', None) and not spec['fitted'] and spec['keep_best'])
     ctx.case(stream, sig, nontrivial=nontrivial, sample=dict(spec={k: v for k, v in spec.items() if k != 'terms'}, terms=spec['terms']))
     case = dict(spec=spec, how='harness.props.c10.run_real_case(spec)')
-    for t in res.get('suspected', []):
-        # genuine deviations from the property text seen on the unchanged tree; reported, not (yet) a verdict
-        ctx.count('suspected-defect', t.split(':')[0])
+    # ---- known findings (recorded in known_findings.json, selector {'known': <id>}) ----------------------
+    # each is recognised *exactly* by the oracle (see run_real_case) and confirmed by a second execution
+    tags = list(res.get('suspected', []))
+    if spec.get('suspected') and res.get('exc') == 'AttributeError':
+        tags.append('plural setter: AttributeError')
+    # (only the first occurrences of a known finding are re-executed and reported; the others are counted)
+    seen = ctx.extra.setdefault('known_reported', {})
+    fresh_tags = []
+    for t in tags:
+        kid = KNOWN[t.split(':')[0]][0]
+        if seen.get(kid, 0) >= 3:
+            ctx.count('known finding', kid)
+        else:
+            fresh_tags.append(t)
+    tags = fresh_tags
+    if tags:
+        res2 = _real_worker(spec)
+        tags2 = list(res2.get('suspected', [])) + (['plural setter: AttributeError'] if spec.get('suspected') and res2.get('exc') == 'AttributeError' else [])
+        for t in tags:
+            head = t.split(':')[0]
+            kid, repro, expected = KNOWN[head]
+            if not any(t2.split(':')[0] == head for t2 in tags2):
+                ctx.count(stream + ' unconfirmed known finding', kid)
+                continue
+            ctx.count('known finding', kid)
+            seen[kid] = seen.get(kid, 0) + 1
+            ctx.fail(stream, dict(known=kid, cls=spec['cls'], shapes=shape_sig(spec), fitted=spec['fitted']),
+                     dict(spec=spec, how='harness.props.c10.run_real_case(spec)', minimal_reproduction=repro),
+                     observed=dict(what=t, exc=res.get('exc'), msg=res.get('msg')), expected=expected,
+                     oracle='independent cold fits of the itertools product of the grids (tol 1e-8); coefficient counts; '
+                            're-fit of the missing candidate from the previous model\'s coef_ through set_params(force=True)')
     if spec.get('suspected'):
-        # reported to the coordinator, not a verdict of this check (see final report)
-        if res['exc'] not in (None, 'ValueError'):
-            ctx.count('suspected-defect', '%s: %s on %s grid' % (spec['suspected'], res['exc'], spec['grids'][0]['param']))
         return
     # ---- oracle first: confirmed failing inputs -----------------------------------------------
     if res['oracle']:
